@@ -2,9 +2,12 @@
 cross-validation of spec/Fmt.tla and the value-and-shape invariants for results the
 specification does not fix digit by digit (g G, magnitudes >= 2^53)."""
 import re
+import sys
 from fractions import Fraction
 
 import render
+
+sys.set_int_max_str_digits(0)      # results with 70000 digits are parsed back
 
 
 def rope_str(rope):
